@@ -601,6 +601,8 @@ def run(ctx):
         # ---- end to end
         if ctx.broken is None:
             end_to_end(ctx, fails)
+            # the same under the cooperative scheduler: writes issued one at a time, in order, by one IO worker
+            scheduled_streams(ctx)
 
     # every mismatch: is it a violation of C16 on the implementation?
     fails = sorted(fails, key=lambda f: len(f[2]))[:40]
@@ -774,6 +776,35 @@ def run_e2e(scn, rng_bytes):
     return data, out, err, log, nparts
 
 
+def scheduled_specs(ctx):
+    """Ranged downloads to non-seekable streams on the real TransferManager under the cooperative
+    scheduler: 2-3 request threads, 2-3 submission threads, retryable stream faults, PCT schedules."""
+    rng = ctx.rng('sched-streams')
+    out = []
+    for i in range(120 if ctx.thorough() else 30):
+        cfg = dict(max_request_concurrency=rng.choice([2, 3]), max_submission_concurrency=rng.choice([2, 3]),
+                   max_in_memory_download_chunks=rng.choice([2, 3]), max_io_queue_size=rng.choice([1, 2, 4]),
+                   multipart_chunksize=rng.choice([3, 4]), multipart_threshold=4, io_chunksize=rng.choice([1, 2]),
+                   num_download_attempts=3)
+        sp = dict(transfers=[dict(kind='download', dst='nonseekable', size=rng.choice([9, 12, 14]))], cfg=cfg,
+                  chooser={'kind': ['pct', 'random', 'pct'][i % 3], 'seed': rng.randrange(1 << 30), 'depth': 6})
+        if i % 3 == 1:
+            sp['get_fault'] = dict(range_idx=rng.randrange(3), attempts=rng.choice([1, 2]), after=rng.randrange(1, 3),
+                                   exc='timeout', read_sizes=[2, 1, 3])
+        out.append(sp)
+    return out
+
+
+def scheduled_mons():
+    from harness.sched import monitors as M
+    return [M.m_terminates, M.m_stream_order, M.m_success_means_all_ok]
+
+
+def scheduled_streams(ctx):
+    from harness.props import sysrun
+    sysrun.sub_runs(ctx, scheduled_specs(ctx), scheduled_mons())
+
+
 def end_to_end(ctx, fails, with_model=True):
     rng = ctx.rng('e2e')
     rng_bytes = bytes(rng.randrange(256) for _ in range(64))
@@ -822,6 +853,9 @@ def end_to_end(ctx, fails, with_model=True):
 
 def replay(ctx, data):
     case = data.get('case') or {}
+    if isinstance(case, dict) and 'transfers' in case:
+        from harness.props import sysrun
+        return sysrun.replay_spec(ctx, data, scheduled_mons())
     if isinstance(case, dict) and 'history' in case:
         obj, hist, path = case_from_json(case)
         r = oracle(obj if is_consistent(obj, hist) else None, hist, path)
